@@ -119,6 +119,9 @@ func (a *SubAdapter) mkBase() (*subBase, error) {
 	default:
 		return nil, fmt.Errorf("unknown sub base %q", a.Cfg.Base)
 	}
+	if dir == "." {
+		return b, nil // the view of the root itself: there is no outside
+	}
 	// content outside the view
 	for _, step := range []func() error{
 		func() error { return hackpadfs.MkdirAll(b.setup, dir, 0755) },
@@ -135,15 +138,16 @@ func (a *SubAdapter) mkBase() (*subBase, error) {
 }
 
 type SubInst struct {
-	cfg     *SubConfig
-	a, b    *subBase
-	view    hackpadfs.FS
-	dir     string
-	probeA  *Inst // calls through the view
-	probeB  *Inst // calls through the parent at dir/name
-	dirty   bool
-	lastObs [2]Obs
-	escaped string // set when an os-backed view resolves outside its scratch directory: nothing is executed
+	cfg       *SubConfig
+	a, b      *subBase
+	view      hackpadfs.FS
+	dir       string
+	probeA    *Inst // calls through the view
+	probeB    *Inst // calls through the parent at dir/name
+	dirty     bool
+	lastObs   [2]Obs
+	subFailed string // set when Sub itself refused an existing directory
+	escaped   string // set when an os-backed view resolves outside its scratch directory: nothing is executed
 }
 
 type prefixed struct {
@@ -162,10 +166,14 @@ func (a *SubAdapter) New(init *tla.Value) (engine.Instance, error) {
 	}
 	view := in.a.top
 	for _, d := range a.Cfg.Dirs {
-		view, err = hackpadfs.Sub(view, d)
+		next, err := hackpadfs.Sub(view, d)
 		if err != nil {
-			return nil, fmt.Errorf("Sub(%q): %w", d, err)
+			// the directory exists and the name is valid: Sub refusing it is a finding, not a harness failure
+			in.subFailed = fmt.Sprintf("Sub(%q) of an existing directory failed: %v", d, err)
+			in.escaped = in.subFailed
+			break
 		}
+		view = next
 	}
 	in.view = view
 	if osv, ok := view.(*hpos.FS); ok {
@@ -191,6 +199,9 @@ func (in *SubInst) Close() {
 func (in *SubInst) joined(p string) string {
 	if p == "." {
 		return in.dir
+	}
+	if in.dir == "." {
+		return p // the view of the root itself: same names
 	}
 	return in.dir + "/" + p
 }
@@ -223,13 +234,20 @@ func (in *SubInst) strip(p string) string {
 	if p == in.dir {
 		return "."
 	}
+	if in.dir == "." {
+		return p
+	}
 	return strings.TrimPrefix(p, in.dir+"/")
 }
 
 func (in *SubInst) CheckResult(call, tr *tla.Value, obs any) []engine.Div {
 	if in.escaped != "" {
 		in.dirty = true
-		return []engine.Div{{Prop: in.cfg.PropSub, Sig: in.probeA.sig(call, tr, "confinement view-root-outside-directory"), Detail: in.escaped}}
+		what := "confinement view-root-outside-directory"
+		if in.subFailed != "" {
+			what = "sub-of-existing-directory-refused"
+		}
+		return []engine.Div{{Prop: in.cfg.PropSub, Sig: in.probeA.sig(call, tr, what), Detail: in.escaped}}
 	}
 	oA, oB := in.lastObs[0], in.lastObs[1]
 	var divs []engine.Div
@@ -332,7 +350,11 @@ func (in *SubInst) CheckState(exp *tla.Value, call, tr *tla.Value) []engine.Div 
 		if call == nil {
 			return nil
 		}
-		return []engine.Div{{Prop: in.cfg.PropSub, Sig: in.probeA.sig(call, tr, "confinement view-root-outside-directory"), Detail: in.escaped}}
+		what := "confinement view-root-outside-directory"
+		if in.subFailed != "" {
+			what = "sub-of-existing-directory-refused"
+		}
+		return []engine.Div{{Prop: in.cfg.PropSub, Sig: in.probeA.sig(call, tr, what), Detail: in.escaped}}
 	}
 	var divs []engine.Div
 	add := func(what, detail string) {
@@ -360,6 +382,9 @@ func (in *SubInst) CheckState(exp *tla.Value, call, tr *tla.Value) []engine.Div 
 	}
 	// confinement: nothing outside dir may ever change
 	for _, s := range []map[string]string{sa} {
+		if in.dir == "." {
+			break
+		}
 		if !strings.HasPrefix(s["zz/o"], "file 644 [9]") || !strings.HasPrefix(s["o"], "file 600 [8]") || !strings.HasPrefix(s["zz"], "dir 755 [o]") {
 			add("confinement outside-changed", fmt.Sprintf("zz=%q zz/o=%q o=%q", s["zz"], s["zz/o"], s["o"]))
 		}
